@@ -253,6 +253,11 @@ func (v *vcase) run() (o vobs) {
 			o.pan = r
 		}
 	}()
+	// variables that merely carry the parameter's own name are no source of values (the environment is read when the parameter is declared)
+	for _, n := range []string{"X", "x", "xx", "XX", "TAIL"} {
+		os.Setenv(n, vPlain[v.kind][0])
+		defer os.Unsetenv(n)
+	}
 	app := cli.App("app", "")
 	app.ErrorHandling = flag.ContinueOnError
 	env := strings.Join(v.envName, " ")
@@ -430,6 +435,20 @@ func (v *vcase) run() (o vobs) {
 		app.Spec = "[--xx...]"
 	}
 	app.Action = func() { o.ran = true; o.got = get(); o.sbu = *sbu }
+	if v.kind.multi() && len(v.Cli) > 0 && v.formSalt%2 == 0 {
+		// the same application object first parses another command line: what that run stored in the list is replaced,
+		// not extended, by the run that is judged
+		pre := map[vkind]string{kStrings: "pre", kInts: "9", kFloats: "9.5"}[v.kind]
+		first := []string{"app", "--xx=" + pre}
+		if v.asArg {
+			first = []string{"app", "--", pre}
+		} else if v.Tail {
+			first = append(first, "tail-0")
+		}
+		app.Run(first)
+		o.ran, o.got, o.sbu = false, nil, false
+		*sbu = false // (the flag is the caller's variable: a fresh invocation starts from false)
+	}
 	o.err = app.Run(append([]string{"app"}, v.Argv...))
 	return o
 }
@@ -484,6 +503,9 @@ func genValueCase(r *rand.Rand, wide bool) *vcase {
 					ps = append(ps, t)
 				}
 				val = strings.Join(ps, ",")
+				if r.Intn(10) == 0 {
+					val = tok() + ":" + tok() // a colon is no list separator
+				}
 			} else {
 				val = tok()
 			}
@@ -715,7 +737,7 @@ func c15Tree(c *core.Ctx) {
 	}
 	d := treeDesc{Tree: treeStr(root), Argv: argv}
 	c.Journal(d)
-	o := drive.Run(&drive.App{Root: root, Policy: flag.ContinueOnError}, argv)
+	o := drive.Run(&drive.App{Root: root, Policy: flag.ContinueOnError, SparseSetBy: c.Index%2 == 1}, argv)
 	c.Eval()
 	if o.Ran != 1 {
 		c.Inc("T_not_run")
@@ -732,6 +754,10 @@ func c15Tree(c *core.Ctx) {
 			bound["arg:"+ad.Name] = len(vs) > 0
 		}
 		for name, set := range sb {
+			if o.NoSetBy[tid][name] {
+				c.Inc("T_declared_without_flag")
+				continue // declared without a SetByUser variable: nothing to look at, but its neighbours' flags must not suffer
+			}
 			if set != bound[name] {
 				c.Violation(fmt.Sprintf("command id %d, %s: SetByUser=%v but the command line bound a value: %v", tid, name, set, bound[name]), nil, nil)
 				return
